@@ -36,6 +36,8 @@ import (
 	"testing"
 	"time"
 
+	"github.com/btcsuite/btcd/address/v2"
+	"github.com/btcsuite/btcd/btcec/v2"
 	"github.com/btcsuite/btcd/btcutil/v2"
 	"github.com/btcsuite/btcd/chainhash/v2"
 	"github.com/btcsuite/btcd/txscript/v2"
@@ -46,6 +48,7 @@ import (
 	"github.com/lightningnetwork/lnd/fn/v2"
 	"github.com/lightningnetwork/lnd/input"
 	"github.com/lightningnetwork/lnd/kvdb"
+	lnmock "github.com/lightningnetwork/lnd/lntest/mock"
 	"github.com/lightningnetwork/lnd/lnwallet"
 	"github.com/lightningnetwork/lnd/lnwallet/chainfee"
 	"github.com/lightningnetwork/lnd/verifmc/chanmc"
@@ -67,12 +70,18 @@ type c04Space struct {
 	NoAmt bool `json:"no_amt"`
 	// Dev is the deviation bound around the eager schedule (<0: all interleavings).
 	Dev int `json:"dev"`
+	// Loads is the load-point alphabet of the second-handle (chain watcher)
+	// family: "write" = a handle is loaded at every distinct durable state of the
+	// victim's database; "tail" (the bounded variant) = at world creation, after
+	// every reload and whenever the victim has stored a new revocation (the points
+	// at which "revoked before/after the handle was loaded" changes).
+	Loads string `json:"loads,omitempty"`
 }
 
 func (s *c04Space) name() string {
 	// Params.Name() omits the balance knobs; the name keys the check
 	// de-duplication, so it must separate every distinct world.
-	return fmt.Sprintf("%s/grossA=%d/reserve=%d/cap=%d/fee=%d/noamt=%v/dev=%d", s.P.Name(), s.P.GrossA, s.P.ReserveSat, s.P.CapacitySat, s.P.FeePerKw, s.NoAmt, s.Dev)
+	return fmt.Sprintf("%s/grossA=%d/reserve=%d/cap=%d/fee=%d/noamt=%v/dev=%d/loads=%s", s.P.Name(), s.P.GrossA, s.P.ReserveSat, s.P.CapacitySat, s.P.FeePerKw, s.NoAmt, s.Dev, s.Loads)
 }
 
 // c04Second is one second-level transaction the cheater can broadcast.
@@ -90,7 +99,7 @@ type c04Snap struct {
 	selfIdx int // cheater's own to-local output index according to its own resolution (-1 unknown)
 	// the commitment owner's own and its peer's balance on this commitment (sat)
 	localSat, remoteSat int64
-	second  []c04Second
+	second              []c04Second
 }
 
 type c04Harness struct {
@@ -117,6 +126,13 @@ type c04Harness struct {
 	reloadRechecks atomic.Int64
 	skippedReplay  atomic.Int64
 	nondet         atomic.Int64
+
+	handlesLoaded        atomic.Int64
+	watchRolledBack      atomic.Int64
+	watchSkippedTerminal atomic.Int64
+	watcherRuns          atomic.Int64
+	watchOutcome         *evid.Counter
+	watchCells           *evid.Counter // (type, victim role, handle age relative to the revocation, check time) with a dispatched breach
 
 	vmu     sync.Mutex
 	handled map[string]bool
@@ -150,6 +166,14 @@ type c04World struct {
 	alt     [2]*channeldb.DB
 	brar    [2]*BreachArbitrator
 	reloads int
+	// second handles (the chain watcher's): one per distinct durable state the
+	// victim's DB went through, loaded when that state was current
+	watchDB    [2]*channeldb.DB
+	handles    [2][]*c04Handle
+	handleAt   [2]int64 // victim's durable-write counter at the last load
+	handleTail [2]uint64
+	handleRel  [2]int // reload count at the last load
+	devs       int    // steps of the history that were not the eager default
 	// modes
 	verbose bool      // replay: print INFO lines
 	force   bool      // ignore check de-duplication
@@ -203,6 +227,7 @@ func (h *c04Harness) newWorld(sp *c04Space) (*c04World, error) {
 		})
 	}
 	cw.snapshot()
+	cw.loadHandles()
 	return cw, nil
 }
 
@@ -216,11 +241,25 @@ func (h *c04Harness) newWorld(sp *c04Space) (*c04World, error) {
 // outputs and txids are witness-independent), and (c) the victim's revocation log,
 // which is written from exactly those commitments. (d) the number of heights already
 // checked is a function of the victim's remote tail height, part of the chanmc key.
+//
+// (e) NOT in the key: which second handles (chain watcher family) were loaded along
+// the way. A watcher delivery is a function of (handle = decode of the victim's
+// database at the load point, database at delivery, revoked tx), i.e. of a PAIR of
+// states; the family judges the pairs (load point, delivery point) that lie on the
+// history by which the explorer reaches each state - all pairs in the eager
+// (dev=0) spaces, the pairs on the first-found history elsewhere. Carrying the
+// load points in the key makes every re-converging interleaving a separate state
+// for good (measured: the quick tier no longer finishes), so this is a stated
+// bound of the family, not a soundness assumption of the other clauses (their
+// verdicts do not read the handles).
 func (c *c04World) Key() string {
 	return c.World.Key() + "|A:" + strings.Join(c.digest[0], ",") + "|B:" + strings.Join(c.digest[1], ",")
 }
 
 func (c *c04World) Do(a string) error {
+	if en := c.World.Enabled(); len(en) > 0 && en[0] != a {
+		c.devs++
+	}
 	if err := c.World.Do(a); err != nil {
 		return err
 	}
@@ -445,8 +484,12 @@ func (c *c04World) firstTime(kind string) bool {
 // after runs after every transition.
 func (c *c04World) after(a string) {
 	c.snapshot()
-	if a == "cut" || strings.HasPrefix(a, "crash") {
+	reload := a == "cut" || strings.HasPrefix(a, "crash")
+	if reload {
 		c.reloads++
+	}
+	c.loadHandles()
+	if reload {
 		c.recheck("reload")
 		return
 	}
@@ -552,11 +595,12 @@ func (c *c04World) checkHeight(v int, h uint64, when string, disk *chanstate.Ope
 	if c.verbose {
 		fmt.Printf("INFO   check victim=%c revoked height %d (%s): revoked tx %v, %d outputs, %d second-level txs\n", 'A'+v, h, when, s.tx.TxHash(), len(s.tx.TxOut), len(s.second))
 	}
-	c.evalOne(v, h, s, disk, s.tx, "disk+spendtx", true)
+	fresh := c.evalOne(v, h, s, disk, s.tx, "disk+spendtx", true)
 	c.evalOne(v, h, s, disk, nil, "disk+nil", false)
 	live := c.Chan(v).State()
 	c.evalOne(v, h, s, live, s.tx, "live+spendtx", false)
 	c.evalOne(v, h, s, live, nil, "live+nil", false)
+	c.watchHeight(v, h, s, when, fresh)
 }
 
 func c04Obfuscator(st *chanstate.OpenChannel) [lnwallet.StateHintSize]byte {
@@ -621,11 +665,11 @@ func (c *c04World) memoKey(v int, s *c04Snap, outs []breachedOutput, full bool, 
 	return sha256.Sum256([]byte(b.String()))
 }
 
-// evalOne is one (victim, height, state source, spendTx) evaluation.
-func (c *c04World) evalOne(v int, h uint64, s *c04Snap, st *chanstate.OpenChannel, spendTx *wire.MsgTx, variant string, full bool) {
+// evalOne is one (victim, height, state source, spendTx) evaluation. It returns
+// the retribution it judged (nil if none was built).
+func (c *c04World) evalOne(v int, h uint64, s *c04Snap, st *chanstate.OpenChannel, spendTx *wire.MsgTx, variant string, full bool) *lnwallet.BreachRetribution {
 	role := c.role(v)
 	real := s.tx
-	txid := real.TxHash()
 
 	// (1) the broadcast tx is recognised as height h.
 	c.h.hintChecks.Add(1)
@@ -649,13 +693,23 @@ func (c *c04World) evalOne(v int, h uint64, s *c04Snap, st *chanstate.OpenChanne
 			c.h.missingAsSpec.Add(1)
 			c.h.outcome.Add("ErrRevLogDataMissing (as specified)")
 		}
-		return
+		return nil
 	}
 	if err != nil {
 		c.violate("retribution-failed", role+":spend="+src, fmt.Sprintf("NewBreachRetribution(height %d, %s) on a revoked height failed: %v", h, variant, err))
 		c.h.outcome.Add("retribution error")
-		return
+		return nil
 	}
+	c.evalBr(v, h, s, st.FundingOutpoint, br, src, variant, full)
+	return br
+}
+
+// evalBr judges one retribution against the cheater's real transactions:
+// clauses (2b)-(5) of the oracle.
+func (c *c04World) evalBr(v int, h uint64, s *c04Snap, chanPoint wire.OutPoint, br *lnwallet.BreachRetribution, src, variant string, full bool) {
+	role := c.role(v)
+	real := s.tx
+	txid := real.TxHash()
 	if c.verbose {
 		fmt.Printf("INFO     %s: state hint -> %d, NewBreachRetribution ok (own to-remote=%v, revoked to-local=%v, %d HTLC retributions)\n",
 			variant, h, br.LocalOutputSignDesc != nil, br.RemoteOutputSignDesc != nil, len(br.HtlcRetributions))
@@ -707,7 +761,6 @@ func (c *c04World) evalOne(v int, h uint64, s *c04Snap, st *chanstate.OpenChanne
 
 	// (4) justice transactions, every input run through the script interpreter
 	// against the REAL outputs.
-	chanPoint := st.FundingOutpoint
 	ri := newRetributionInfo(&chanPoint, br)
 	class := fmt.Sprintf("%s|%s|own=%v|their=%v|offered=%d|accepted=%d|outs=%d|spend=%s|amt=%v|reloaded=%v|src=%s",
 		c.sp.P.Type, role, br.LocalOutputSignDesc != nil, br.RemoteOutputSignDesc != nil, nin, nout, len(real.TxOut), src, !c.sp.NoAmt, c.reloads > 0, variant[:4])
@@ -755,7 +808,7 @@ func (c *c04World) evalOne(v int, h uint64, s *c04Snap, st *chanstate.OpenChanne
 	c.h.outcome.Add("justice built and executed")
 	if nin+nout > 0 && len(s.second) > 0 && h >= 2 {
 		c.h.samples.Add(map[string]any{"space": c.sp.name(), "history": c.Hist(), "victim": string(rune('A' + v)), "revoked_height": h,
-		"variant": variant, "revoked_txid": txid.String(), "outputs": len(real.TxOut), "htlc_retributions": len(br.HtlcRetributions),
+			"variant": variant, "revoked_txid": txid.String(), "outputs": len(real.TxOut), "htlc_retributions": len(br.HtlcRetributions),
 			"cheater_second_level_txs": len(s.second), "witness_types": c04WitnessTypes(ri.breachedOutputs)})
 	}
 
@@ -775,6 +828,294 @@ func (c *c04World) evalOne(v int, h uint64, s *c04Snap, st *chanstate.OpenChanne
 			all[k] = k
 		}
 		c.secondLevel(v, h, role, s, base, prev, want, all, false)
+	}
+}
+
+// ---- second handles: the chain watcher's own OpenChannel ------------------------
+//
+// In lnd the chain watcher of a channel holds its own *OpenChannel, loaded once
+// (ChainArbitrator.Start: FetchAllOpenChannels; WatchNewChannel), while the link
+// advances the channel through another instance. Family: for EVERY distinct
+// durable state the victim's DB goes through along a history, a handle is loaded
+// while that state is current ("load point"). Whenever a revoked height is
+// judged (on revocation, after every reload, at the end of the history) the
+// spend of the funding output by that revoked commitment is delivered to a real
+// chainWatcher (handleCommitSpend: newChainSet -> known local/remote state ->
+// handlePossibleBreach -> dispatchContractBreach) running on an untouched copy of
+// EACH handle loaded so far. Oracle (differential, no expected values): the
+// watcher must hand exactly one BreachRetribution to the breach arbitrator and
+// it must equal (every field that enters a justice transaction) the retribution
+// built from a fresh load, which clauses (2)-(5) judge with the script
+// interpreter; a retribution that differs is itself judged by (2)-(5).
+
+// c04Handle is one load point.
+type c04Handle struct {
+	at   int    // history length at which it was loaded
+	tail uint64 // heights below this were already revoked when it was loaded
+	st   *chanstate.OpenChannel
+}
+
+var errC04Rollback = errors.New("c04: watcher write rolled back")
+
+// c04RollbackDB is the kvdb backend the watcher's handles persist through: reads
+// go to the victim's real database; a write transaction is executed for real and
+// then rolled back (the watcher marks the channel borked when it dispatches a
+// breach; the explored history must not see that). The caller is told the write
+// succeeded.
+type c04RollbackDB struct {
+	kvdb.Backend
+	rolledBack *atomic.Int64
+}
+
+func (d *c04RollbackDB) Update(f func(tx kvdb.RwTx) error, reset func()) error {
+	err := d.Backend.Update(func(tx kvdb.RwTx) error {
+		if err := f(tx); err != nil {
+			return err
+		}
+		return errC04Rollback
+	}, reset)
+	if errors.Is(err, errC04Rollback) {
+		d.rolledBack.Add(1)
+		return nil
+	}
+	return err
+}
+
+func (d *c04RollbackDB) BeginReadWriteTx() (kvdb.RwTx, error) {
+	tx, err := d.Backend.BeginReadWriteTx()
+	if err != nil {
+		return nil, err
+	}
+	return &c04RollbackTx{RwTx: tx, d: d}, nil
+}
+
+type c04RollbackTx struct {
+	kvdb.RwTx
+	d *c04RollbackDB
+}
+
+func (t *c04RollbackTx) Commit() error {
+	t.d.rolledBack.Add(1)
+	return t.RwTx.Rollback()
+}
+
+// c04WatchStore forwards everything to the real ChannelStateDB. The only call
+// it observes is the data-loss commit-point poll: a watcher that reaches it has
+// classified the spend as "state unknown to us" and would poll forever
+// (wall-clock back-off); the harness records that and closes the watcher's quit
+// channel so that the call returns.
+type c04WatchStore struct {
+	chanstate.Store
+	onDLP func()
+}
+
+func (s *c04WatchStore) FetchChannelDataLossCommitPoint(ch *chanstate.OpenChannel) (*btcec.PublicKey, error) {
+	if s.onDLP != nil {
+		s.onDLP()
+	}
+	return s.Store.FetchChannelDataLossCommitPoint(ch)
+}
+
+// loadHandles loads a new handle for each party whose database performed a
+// durable write since the last load (equal disk => equal handle, so the load
+// points enumerated are exactly the distinct durable states).
+func (c *c04World) loadHandles() {
+	for v := 0; v < 2; v++ {
+		n := c.CrashDB(v).Commits()
+		if len(c.handles[v]) > 0 && n == c.handleAt[v] {
+			continue
+		}
+		if c.sp.Loads != "write" && len(c.handles[v]) > 0 && c.reloads == c.handleRel[v] &&
+			c.Chan(v).State().RemoteCommitment.CommitHeight == c.handleTail[v] {
+			// bounded alphabet: no reload and no new revocation since the last load
+			continue
+		}
+		if c.watchDB[v] == nil {
+			db, err := channeldb.CreateWithBackend(
+				&c04RollbackDB{Backend: c.CrashDB(v), rolledBack: &c.h.watchRolledBack}, channeldb.OptionNoMigration(true),
+				channeldb.OptionNoRevLogAmtData(c.sp.NoAmt),
+			)
+			if err != nil {
+				c.violate("harness-watch-db", c.role(v), fmt.Sprintf("second channeldb handle: %v", err))
+				return
+			}
+			c.watchDB[v] = db
+		}
+		// as ChainArbitrator.Start does
+		chans, err := c.watchDB[v].ChannelStateDB().FetchAllOpenChannels()
+		if err != nil || len(chans) != 1 {
+			c.violate("persisted-state-unreadable", c.role(v), fmt.Sprintf("victim %d: FetchAllOpenChannels: %d channels, %v", v, len(chans), err))
+			continue
+		}
+		c.handleAt[v] = n
+		c.handleTail[v] = c.Chan(v).State().RemoteCommitment.CommitHeight
+		c.handleRel[v] = c.reloads
+		c.handles[v] = append(c.handles[v], &c04Handle{at: len(c.Hist()), tail: chans[0].RemoteCommitment.CommitHeight, st: chans[0]})
+		c.h.handlesLoaded.Add(1)
+	}
+}
+
+// c04BrDigest covers every field of a retribution that enters a justice
+// transaction or decides whether the spend is treated as a breach.
+func c04BrDigest(chanPoint wire.OutPoint, br *lnwallet.BreachRetribution) string {
+	ri := newRetributionInfo(&chanPoint, br)
+	return fmt.Sprintf("%v|%d|%d|%v|%v|%d|%d|%s", br.BreachTxHash, br.RevokedStateNum, br.BreachHeight, br.ChainHash, br.ChanType,
+		br.LocalDelay, br.RemoteDelay, c04OutsDigest(ri.breachedOutputs))
+}
+
+// c04WatchOutcome is what one chain watcher did with one spend.
+type c04WatchOutcome struct {
+	err      error
+	panicked any
+	brs      []*lnwallet.BreachRetribution
+	events   string // which subscriber events were sent
+	breachEv *BreachCloseInfo
+	dlp      bool
+}
+
+// runWatcher delivers the spend of the funding output by tx to a real chain
+// watcher whose channel handle is an untouched copy of hd.
+func (c *c04World) runWatcher(v int, hd *c04Handle, tx *wire.MsgTx) (out c04WatchOutcome) {
+	st := hd.st.Copy()
+	var cw *chainWatcher
+	var once sync.Once
+	st.Db = &c04WatchStore{Store: hd.st.Db, onDLP: func() {
+		out.dlp = true
+		once.Do(func() {
+			if cw != nil {
+				close(cw.quit)
+			}
+		})
+	}}
+	defer func() {
+		if p := recover(); p != nil {
+			out.panicked = p
+		}
+	}()
+	var err error
+	cw, err = newChainWatcher(chainWatcherConfig{
+		chanState: st,
+		notifier:  &lnmock.ChainNotifier{SpendChan: make(chan *chainntnfs.SpendDetail, 1), ConfChan: make(chan *chainntnfs.TxConfirmation, 1)},
+		signer:    c.Signer(v),
+		contractBreach: func(r *lnwallet.BreachRetribution) error {
+			out.brs = append(out.brs, r)
+			return nil
+		},
+		isOurAddr:           func(address.Address) bool { return false },
+		extractStateNumHint: lnwallet.GetStateNumHint,
+		chanCloseConfs:      fn.Some(uint32(1)),
+	})
+	if err != nil {
+		out.err = fmt.Errorf("newChainWatcher: %w", err)
+		return out
+	}
+	sub := cw.SubscribeChannelEvents()
+	txid := tx.TxHash()
+	op := st.FundingOutpoint
+	out.err = cw.handleCommitSpend(&chainntnfs.SpendDetail{
+		SpentOutPoint: &op, SpenderTxHash: &txid, SpendingTx: tx, SpenderInputIndex: 0, SpendingHeight: c04BreachHeight,
+	})
+	var ev []string
+	select {
+	case b := <-sub.ContractBreach:
+		out.breachEv = b
+		ev = append(ev, "contract-breach")
+	default:
+	}
+	select {
+	case <-sub.RemoteUnilateralClosure:
+		ev = append(ev, "remote-unilateral-close")
+	default:
+	}
+	select {
+	case <-sub.LocalUnilateralClosure:
+		ev = append(ev, "local-unilateral-close")
+	default:
+	}
+	select {
+	case <-sub.CooperativeClosure:
+		ev = append(ev, "cooperative-close")
+	default:
+	}
+	if out.dlp {
+		ev = append(ev, "data-loss-recovery")
+	}
+	if len(ev) == 0 {
+		ev = []string{"no-event"}
+	}
+	out.events = strings.Join(ev, "+")
+	return out
+}
+
+// watchHeight is the second-handle family for one revoked height: every handle
+// loaded so far, each in a chain watcher of its own.
+func (c *c04World) watchHeight(v int, h uint64, s *c04Snap, when string, fresh *lnwallet.BreachRetribution) {
+	if fresh == nil || len(c.handles[v]) == 0 {
+		// no reference retribution: already reported by clause (2)
+		return
+	}
+	if when == "terminal" && c.sp.Loads != "write" && c.devs > 0 {
+		// bounded variant: the delivery "at the end of the history" is made on
+		// the eager history of each space only (deliveries right after the
+		// revocation and after every reload are made on every history)
+		c.h.watchSkippedTerminal.Add(1)
+		return
+	}
+	role := c.role(v)
+	txid := s.tx.TxHash()
+	ref := c04BrDigest(c.handles[v][0].st.FundingOutpoint, fresh)
+	now := len(c.Hist())
+	for _, hd := range c.handles[v] {
+		rel := "revoked-after-handle-load"
+		switch {
+		case hd.at == now:
+			rel = "handle-loaded-now"
+		case h < hd.tail:
+			rel = "revoked-before-handle-load"
+		}
+		c.h.watcherRuns.Add(1)
+		out := c.runWatcher(v, hd, s.tx)
+		cell := fmt.Sprintf("%s|%s|%s|%s", c.sp.P.Type, role, rel, when)
+		desc := fmt.Sprintf("victim %c, revoked height %d (tx %v), chain watcher handle loaded after step %d (remote tail %d then), spend delivered after step %d (%s)",
+			'A'+v, h, txid, hd.at, hd.tail, now, when)
+		switch {
+		case out.panicked != nil:
+			c.h.watchOutcome.Add("panic")
+			c.violate("watcher-panic", role+":"+rel, fmt.Sprintf("%s: chain watcher panicked: %v", desc, out.panicked))
+			continue
+		case len(out.brs) == 0:
+			how := out.events
+			if out.err != nil {
+				how = "error"
+			}
+			c.h.watchOutcome.Add("breach NOT dispatched: " + how)
+			c.violate("watcher-breach-not-recognised", role+":"+rel+":"+how, fmt.Sprintf("%s: the chain watcher did not hand a breach retribution to the breach arbitrator although a fresh load of the persisted state builds one; handleCommitSpend err=%v, subscriber events: %s", desc, out.err, out.events))
+			continue
+		case len(out.brs) > 1:
+			c.violate("watcher-breach-dispatched-twice", role+":"+rel, fmt.Sprintf("%s: %d retributions dispatched", desc, len(out.brs)))
+		}
+		if out.err != nil {
+			c.violate("watcher-breach-dispatch-error", role+":"+rel, fmt.Sprintf("%s: retribution handed over but handleCommitSpend failed: %v (events: %s)", desc, out.err, out.events))
+		}
+		if out.breachEv != nil && out.breachEv.CommitHash != txid {
+			c.violate("watcher-breach-event-txid", role+":"+rel, fmt.Sprintf("%s: BreachCloseInfo names %v", desc, out.breachEv.CommitHash))
+		}
+		got := c04BrDigest(hd.st.FundingOutpoint, out.brs[0])
+		if got == ref {
+			c.h.watchOutcome.Add("breach dispatched (" + out.events + "), retribution identical to the fresh-load one")
+			c.h.watchCells.Add(cell)
+			if c.verbose {
+				fmt.Printf("INFO     watcher handle@%d (%s): breach dispatched, retribution identical to fresh load\n", hd.at, rel)
+			}
+			continue
+		}
+		// differs from the reference: judge it on its own merits
+		c.h.watchOutcome.Add("breach dispatched (" + out.events + "), retribution differs from the fresh-load one: judged separately")
+		c.h.watchCells.Add(cell)
+		if c.verbose {
+			fmt.Printf("INFO     watcher handle@%d (%s): retribution differs from fresh load, judging it\n", hd.at, rel)
+		}
+		c.evalBr(v, h, s, hd.st.FundingOutpoint, out.brs[0], "spendtx", "wtch+handle:"+rel, true)
 	}
 }
 
@@ -998,7 +1339,27 @@ func (c *c04World) justice(v int, h uint64, role, short, label string, outs []br
 
 func c04sat(s int64, extraMsat uint64) uint64 { return uint64(s)*1000 + extraMsat }
 
+// c04Spaces: the spaces of one tier. Load-point alphabet of the second-handle
+// family: quick = bounded ("tail") everywhere except the two full-interleaving
+// spaces, which load at every durable write; thorough = every durable write (and
+// end-of-history deliveries on every history) in all spaces explored with a
+// deviation bound of 0 or 1 (reloads at every point, in-sync double reloads, the
+// lopsided and dust-lattice worlds, all 7 types and both openers), bounded in the
+// deviation-2 and full-interleaving spaces.
 func c04Spaces(thorough bool) []*c04Space {
+	out := c04SpacesBase(thorough)
+	for _, sp := range out {
+		switch {
+		case thorough && sp.Dev >= 0 && sp.Dev <= 1, !thorough && sp.Dev < 0:
+			sp.Loads = "write"
+		default:
+			sp.Loads = "tail"
+		}
+	}
+	return out
+}
+
+func c04SpacesBase(thorough bool) []*c04Space {
 	var out []*c04Space
 	add := func(p chanmc.Params, noAmt bool, dev int) {
 		out = append(out, &c04Space{P: p, NoAmt: noAmt, Dev: dev})
@@ -1131,7 +1492,8 @@ func c04b2i(b bool) int {
 func TestC04(t *testing.T) {
 	run := evid.Start("C04", "exploration")
 	h := &c04Harness{run: run, samples: evid.NewSamples(6), classes: evid.NewCounter(), wtypes: evid.NewCounter(),
-		outcome: evid.NewCounter(), lattice: evid.NewCounter(), handled: map[string]bool{}}
+		outcome: evid.NewCounter(), lattice: evid.NewCounter(), handled: map[string]bool{},
+		watchOutcome: evid.NewCounter(), watchCells: evid.NewCounter()}
 	// one retribution store (bbolt) for the persist-and-read-back step
 	dir := os.Getenv("VERIF_SCRATCH")
 	if dir == "" {
@@ -1171,7 +1533,7 @@ func TestC04(t *testing.T) {
 			"rule": "replay of one recorded history", "samples": []any{rp}, "script_inputs_executed": h.inputsExecuted.Load()}))
 	}
 
-	budget := 140 * time.Second
+	budget := 170 * time.Second
 	if run.Thorough() {
 		budget = 27 * time.Minute
 	}
@@ -1189,10 +1551,10 @@ func TestC04(t *testing.T) {
 	}
 	var (
 		states, transitions, replays, terminals int64
-		complete                                 int
-		caps                                     []string
-		perSpace                                 []map[string]any
-		recheck                                  map[string]any
+		complete                                int
+		caps                                    []string
+		perSpace                                []map[string]any
+		recheck                                 map[string]any
 	)
 	explore1 := func(sp *c04Space, workers int) explore.Result {
 		return explore.Run(explore.Options{
@@ -1222,6 +1584,23 @@ func TestC04(t *testing.T) {
 			order = append(order, sp)
 		}
 	}
+	// Among the bounded spaces the small ones go first (work assignment only):
+	// when the deadline cuts a run short on a loaded machine it then cuts into the
+	// late deviations of a few large spaces instead of dropping whole small spaces
+	// (the 168 dust-lattice cells are one space each).
+	c04cost := func(sp *c04Space) int {
+		if sp.Dev < 0 {
+			return -1
+		}
+		return (len(sp.P.Script) + len(sp.P.Fees)) * (1 + 2*sp.Dev) * (1 + sp.P.MaxCuts)
+	}
+	sort.SliceStable(order, func(i, j int) bool {
+		a, b := c04cost(order[i]), c04cost(order[j])
+		if (a <= 3) != (b <= 3) || a <= 3 {
+			return a < b
+		}
+		return a > b // the large ones: longest first (shorter makespan)
+	})
 	var (
 		amu  sync.Mutex
 		wg   sync.WaitGroup
@@ -1313,42 +1692,51 @@ func TestC04(t *testing.T) {
 		"distinct_nontrivial": h.classes.Distinct(),
 		"rule": "evaluation = one NewBreachRetribution(victim state, revoked height, spendTx|nil) on a real two-peer history, followed (when it succeeds) by newRetributionInfo -> createJusticeTx and txscript.Engine.Execute on every input of every justice tx variant against the real outputs of the cheater's snapshotted transactions; " +
 			"distinct_nontrivial = distinct classes (channel type, victim role, #offered/#accepted HTLC outputs, #outputs, spendTx given, amounts stored, reloaded, disk/live state) in which a justice transaction was built and executed",
-		"samples":                             h.samples.List(),
-		"exhaustive":                          len(caps) == 0,
-		"caps_hit":                            caps,
-		"spaces":                              len(spaces),
-		"spaces_completed":                    complete,
-		"states":                              states,
-		"transitions":                         transitions,
-		"histories_replayed_on_impl":          replays,
-		"terminal_histories":                  terminals,
-		"revoked_heights_checked":             h.heightsChecked.Load(),
-		"revoked_heights_rechecked_on_reload": h.reloadRechecks.Load(),
-		"state_hint_checks":                   h.hintChecks.Load(),
-		"err_rev_log_data_missing_as_spec":    h.missingAsSpec.Load(),
-		"justice_txs_built":                   h.justiceTxs.Load(),
-		"script_inputs_executed":              h.inputsExecuted.Load(),
-		"script_inputs_by_witness_type":       h.wtypes.Map(),
-		"second_level_conversions":            h.secondLevel.Load(),
-		"second_level_shifted_index":          h.secondShifted.Load(),
-		"cheater_second_level_txs_validated":  h.cheaterTxs.Load(),
-		"retribution_store_round_trips":       h.storeTrips.Load(),
-		"checks_skipped_on_replayed_prefix":   h.skippedReplay.Load(),
-		"cheater_snapshots_distinct":          h.snapshots.Load(),
-		"justice_verifications_distinct":      h.memoMisses.Load(),
-		"justice_verifications_memoized":      h.memoHits.Load(),
-		"outcome_classes":                     h.outcome.Map(),
-		"dust_lattice_cells_hit":              h.lattice.Distinct(),
-		"dust_lattice_cells":                  h.lattice.Map(),
-		"per_space":                           perSpace,
-		"determinism_recheck":                 recheck,
-		"reloads":                             h.stats.Reloads.Load(),
-		"signatures_verified_by_peer":         h.stats.SigsVerified.Load(),
+		"samples":                                         h.samples.List(),
+		"exhaustive":                                      len(caps) == 0,
+		"caps_hit":                                        caps,
+		"spaces":                                          len(spaces),
+		"spaces_completed":                                complete,
+		"states":                                          states,
+		"transitions":                                     transitions,
+		"histories_replayed_on_impl":                      replays,
+		"terminal_histories":                              terminals,
+		"revoked_heights_checked":                         h.heightsChecked.Load(),
+		"revoked_heights_rechecked_on_reload":             h.reloadRechecks.Load(),
+		"state_hint_checks":                               h.hintChecks.Load(),
+		"err_rev_log_data_missing_as_spec":                h.missingAsSpec.Load(),
+		"justice_txs_built":                               h.justiceTxs.Load(),
+		"script_inputs_executed":                          h.inputsExecuted.Load(),
+		"script_inputs_by_witness_type":                   h.wtypes.Map(),
+		"second_level_conversions":                        h.secondLevel.Load(),
+		"second_level_shifted_index":                      h.secondShifted.Load(),
+		"cheater_second_level_txs_validated":              h.cheaterTxs.Load(),
+		"retribution_store_round_trips":                   h.storeTrips.Load(),
+		"checks_skipped_on_replayed_prefix":               h.skippedReplay.Load(),
+		"cheater_snapshots_distinct":                      h.snapshots.Load(),
+		"justice_verifications_distinct":                  h.memoMisses.Load(),
+		"justice_verifications_memoized":                  h.memoHits.Load(),
+		"outcome_classes":                                 h.outcome.Map(),
+		"dust_lattice_cells_hit":                          h.lattice.Distinct(),
+		"dust_lattice_cells":                              h.lattice.Map(),
+		"per_space":                                       perSpace,
+		"determinism_recheck":                             recheck,
+		"reloads":                                         h.stats.Reloads.Load(),
+		"watcher_handles_loaded":                          h.handlesLoaded.Load(),
+		"watcher_spends_delivered":                        h.watcherRuns.Load(),
+		"watcher_writes_rolled_back":                      h.watchRolledBack.Load(),
+		"watcher_end_of_history_deliveries_outside_bound": h.watchSkippedTerminal.Load(),
+		"watcher_outcome_classes":                         h.watchOutcome.Map(),
+		"watcher_cells_hit":                               h.watchCells.Distinct(),
+		"watcher_cells":                                   h.watchCells.Map(),
+		"signatures_verified_by_peer":                     h.stats.SigsVerified.Load(),
 	}
 	run.Assumptions = append(run.Assumptions,
 		"histories: scripts of at most 3 HTLCs, one fee update, at most 2 reconnects; amounts on the dust thresholds; custom (aux-leaf) channels outside the alphabet",
 		"height 0 is judged on the unsigned commitment (fixture has no real height-0 signature); only outputs matter to the victim-side oracles",
 		"fee/weight estimation of the justice tx and BIP68 confirmation depth are not judged; only script validity, outpoints and amounts",
+		"second-handle family: the chain watcher is driven through handleCommitSpend (what closeObserver calls once the spend has its confirmations); the confirmation/reorg state machine in front of it is not part of this property. The watcher's handles persist through a second channeldb handle on the victim's backend whose write transactions are executed and rolled back (the watcher's MarkBorked must not leak into the explored history); each delivery runs on OpenChannel.Copy() of the handle as loaded",
+		"second-handle family, load-point alphabet: every distinct durable state of the victim's database ('loads=write' spaces) or world creation + every reload + every newly stored revocation ('loads=tail' spaces); delivery times: right after the revocation and after every reload on every explored history, at the end of the history on every history ('loads=write') or on the eager history of the space ('loads=tail'). Load points and delivery points are taken on the history by which the explorer reaches a state (the handles are not part of the canonical key)",
 		"noRevLogAmtData worlds: both parties persist through a second channeldb handle on the same backend opened with OptionNoRevLogAmtData(true)")
 	if code := run.Finish(cov); code != 0 {
 		os.Exit(code)
